@@ -519,6 +519,23 @@ def law_cases(rng, n):
         L(gry, call("rgb", call("red", gry), call("red", gry), call("red", gry), call("alpha", gry), alias="rgba"), "grayscale_is_grey")
         wv = rng.choice(["10", "25", "50", "75", "100"])
         L(call("invert", c, num(wv, "pct")), call("mix", call("invert", c), c, num(wv, "pct")), "invert_weight_is_mix")
+        # Round 3 (seeded C15-r3m2): $alpha composes with every colour-space group in ONE call exactly as in two
+        # calls — f(c, X…, $alpha: a) == f(f(c, X…), $alpha: a) for change/adjust/scale and X in rgb / hsl / hwb
+        for fn, av, grp in (("change", rng.choice(["0", "0.25", "0.5", "1"]), "set"),
+                            ("adjust", rng.choice(["-0.3", "-0.1", "0.2", "0.6"]), "add"),
+                            ("scale", rng.choice(["-50", "-10", "10", "50"]), "pct")):
+            aarg = ("alpha", num(av, "pct") if grp == "pct" else num(av))
+            pv = rng.choice(["10", "20", "50"])
+            pa = num(pv, "pct") if fn != "adjust" else num(rng.choice(["-", ""]) + pv, "pct")
+            groups = {
+                "rgb": [(rng.choice(["red", "green", "blue"]), num(rng.choice(["10", "40", "90"]), "pct") if fn == "scale" else num(rng.choice(["0", "17", "128"])))],
+                "hsl": [(rng.choice(["saturation", "lightness"]), pa)],
+                "hwb": [(rng.choice(["whiteness", "blackness"]), pa)],
+            }
+            for gname, xs in groups.items():
+                base = c8 if gname == "hwb" else c
+                L(call(fn, base, kw=xs + [aarg]), call(fn, call(fn, base, kw=xs), kw=[aarg]), f"{fn}_alpha_with_{gname}_composes")
+                L(call("alpha", call(fn, base, kw=[aarg] + xs)), call("alpha", call(fn, base, kw=[aarg])), f"{fn}_alpha_independent_of_{gname}")
     return out
 
 
